@@ -59,6 +59,11 @@ def templates(tier, seed=0):
     ts.append({'name': 'runs-off-end', 'src': 'fn f(c) {\n    if c {\n        return 5\n    }\n}\nprint(f(@b0@))\ng := fn () {\n    x := 1\n}\nprint(g())\n'})
     # a function never reached through an object has no `this` of its own, unless an enclosing function's `this` is in scope
     ts.append({'name': 'this-enclosing', 'src': 'o := {"name": "O", "m": fn () {\n    helper := fn () {\n        return this.name\n    }\n    return helper()\n}}\nprint(o.m())\nf := fn () {\n    return this\n}\nif @b0@ {\n    print(f())\n}\nprint(1)\n'})
+    # `this` is lexical: a plain call made from inside a method does not hand the caller's `this` to the callee
+    ts.append({'name': 'this-not-dynamic', 'src': 'A := {"name": "A", "mk": fn () {\n    return fn () {\n        return this.name\n    }\n}}\nfn free() {\n    return this.name\n}\nB := {"name": "B", "run": fn (cb) {\n    return cb()\n}, "run2": fn () {\n    return free()\n}, "run3": fn () {\n    h := fn () {\n        return this.name\n    }\n    return A.mk()() + h()\n}}\ng := A.mk()\nprint(g())\nprint(B.run(g))\nprint(B.run3())\nprint([g][0]())\nif @b0@ {\n    print(B.run2())\n}\nif @b1@ {\n    print(B.run(free))\n}\nif @b2@ {\n    print(free())\n}\nprint(1)\n'})
+    # a method with a rest parameter has its `this` like any other
+    ts.append({'name': 'this-rest-method', 'src': 'acc := {"base": @h10@, "add": fn (..xs) {\n    t := this.base\n    for [i, x] in xs {\n        t += x\n    }\n    return t\n}, "add2": fn (a, ..r) {\n    return [this.base, a, r]\n}}\nprint(acc.add(1, 2))\nprint(acc.add())\nprint(acc["add2"](5))\nf := acc.add2\nprint(f(1, 2))\nxs := [3, 4]\nprint(acc.add(xs..))\n',
+               'assume': lambda v: [v['h10'] >= -100, v['h10'] <= 100]})
     ts.append({'name': 'callee-kinds', 'src': 'r := @h0@\nxs := [fn () {\n    return 1\n}]\no := {"f": fn (a) {\n    return a\n}}\n' + '\n'.join(ladder('r', ['print(xs[0]())', 'print(o.f(2))', 'print(o["f"](3))', 'print((fn () {\n    return 4\n})())', 'print(5())', 'print("s"())', 'print(o())', 'print(xs())', 'print(null())', 'print(o.f())', 'print(xs[0](1))', 'print(print(6))', 'print(print())', 'print(print(1, 2))'])) + '\nprint(9)\n',
                'assume': lambda v: [v['h0'] >= 0, v['h0'] <= 14]})
     return ts
